@@ -273,6 +273,16 @@ public:
           J.attribute("trivial", true);
         if (C->isImplicit())
           J.attribute("implicit", true);
+        if (C->isInheritingConstructor()) {
+          const CXXConstructorDecl *B = C;
+          unsigned Guard = 0;
+          while (B && B->isInheritingConstructor() && Guard++ < 8)
+            B = B->getInheritedConstructor().getConstructor();
+          if (B && B != C) {
+            J.attribute("inherited_from", keyOf(B));
+            J.attribute("inherited_cls", ty(Ctx.getRecordType(B->getParent())));
+          }
+        }
       }
       if (FD->isDefaulted())
         J.attribute("defaulted", true);
